@@ -1521,6 +1521,8 @@ class MacroFunction(Macro):
 
         if self.has_strcat:
             res_tokens = []
+            # Tokens produced by # or ## are not substituted again
+            final = []
             last_cat = False
             placemarker = False
             idx = 0
@@ -1534,6 +1536,7 @@ class MacroFunction(Macro):
                         prev_white = False
                     else:
                         last = res_tokens.pop()
+                        final.pop()
                         prev_white = last.prev_white
                         if not last_cat:
                             try:
@@ -1564,9 +1567,11 @@ class MacroFunction(Macro):
                             cp.prev_white = prev_white
                             toadd[0].prev_white = prev_white
                         res_tokens.extend(toadd)
+                        final.extend([True] * len(toadd))
                     else:
                         # An empty operand leaves the other one unchanged
                         res_tokens.extend(last + nexttok)
+                        final.extend([True] * len(last + nexttok))
                     placemarker = len(last) + len(nexttok) == 0
                     last_cat = True
                 elif tok.token == "#":
@@ -1588,22 +1593,27 @@ class MacroFunction(Macro):
                     last_cat = True
                     placemarker = False
                     res_tokens.append(tok)
+                    final.append(True)
                 else:
                     last_cat = False
                     placemarker = False
                     res_tokens.append(tok)
+                    final.append(False)
                 idx += 1
         else:
             res_tokens = copy(self.replacement)
+            final = [False] * len(res_tokens)
 
         # Substitute each occurrence of an argument in the replacement
         substituted_tokens = []
-        for token in res_tokens:
+        for token, is_final in zip(res_tokens, final):
             substitution = []
 
-            # If a token matches an argument, it is substituted;
-            # otherwise it passes through
+            # If an identifier of the replacement list matches an argument,
+            # it is substituted; otherwise it passes through
             try:
+                if is_final or not isinstance(token, Identifier):
+                    raise ValueError
                 substitution = input_args[self.args.index(token.token)][1]
                 if len(substitution) > 0:
                     substitution[0] = copy(substitution[0])
